@@ -46,6 +46,7 @@ def draw_knobs(rng: Rng, profile: dict):
         skew=kr.chance(profile.get("p_skew", 0.0)),
         hash_seed=kr.randrange(1 << 30),
         verbose_flag=kr.pick([None, None, None, "debug", "info"]),
+        cluster_name="hpc1" if (backend == "slurm" and kr.chance(0.12)) else None,
     )
     if not kn["accounting"]:
         kn["acct_lag"] = False
